@@ -255,7 +255,9 @@ def check_op(ctx, backend, old, op, form, new):
                     vals = [v for kk, v in got if kk == k]
                     want_vals = [v for kk, v in exp_new if kk == k]
                     if not ctx.check(vals == want_vals, "update_query: values of a replaced key are not the argument's values",
-                                     observed={"key": k, "values": vals, "got": got, "old": old_items, "new": exp_new}, expected=want_vals, entry=op):
+                                     observed={"key": k, "values": vals, "got": got, "old": old_items, "new": exp_new,
+                                               "raw_new": [[str.__str__(kk), vv if isinstance(vv, (list, tuple)) else render(vv)] for kk, vv in (arg.items() if isinstance(arg, Mapping) else arg)]},
+                                     expected=want_vals, entry=op):
                         break
     if op != "build":
         same = (R.scheme, R.raw_authority, R.raw_path, R.raw_fragment) == (B.scheme, B.raw_authority, B.raw_path, B.raw_fragment)
